@@ -22,6 +22,12 @@ type PtrV struct {
 	Cell int
 	Path []int // field path within the cell's value
 	Elem types.Type
+	Nil  *Term // non-nil: the pointer itself may be nil (an optional input object such as a request's *PageRequest); true = nil
+}
+
+// optional input objects: a symbolic pointer to one of these types may be nil
+var nullablePointee = map[string]bool{
+	"github.com/cosmos/cosmos-sdk/types/query.PageRequest": true,
 }
 
 // NilV is the nil value of a pointer, slice, map, func or (non-error) interface type.
@@ -95,6 +101,7 @@ type IterState struct {
 	Idx  string // name of the ghost index function Bytes -> Int (completeness witness)
 	Kind string // description of the range (for messages)
 	Match func(k *Term) *Term // membership predicate of the range over keys
+	Strip *Term // non-nil: a prefix-store iterator; Key() hands out kstrip(Strip, key)
 }
 
 func typeKey(t types.Type) string { return types.TypeString(t, nil) }
